@@ -17,7 +17,14 @@ RULE = ('a case = (reference FRU device: 2-4 FRU ids 0..255 incl. id 0 with dist
         'request/response trace, final device contents.  Independently every case is judged by the property: bytes = '
         'storage slice (areas located by the FRU storage format), every request names the caller\'s FRU id, written '
         'bytes land contiguously, a short acknowledge is an error.  Distinct by (device, operation); non-trivial = '
-        'at least two exchanges.  HISTORIES on ONE Ipmi object against ONE device: (a) every single case again as the '
+        'at least two exchanges.  EVERY FORM OF THE READ CALL read_fru_data(offset=None, count=None, fru_id): besides '
+        '(offset, count) and neither, a count given ALONE (that many bytes from the start) and an offset given ALONE '
+        '(from there to the end of the inventory area) - boundary sizes, 0, the whole area; signature '
+        'read_fru_data:half-range.  ABSENT AREAS: the generated images declare every subset of {chassis, board, product, '
+        'multirecord} present (all 16, x internal use area declared or not - the usual board FRU has one and no chassis '
+        'area) and EVERY getter is called on each; for an area whose offset byte in a checksum-valid common header is '
+        '00h the oracle expects None and Read FRU Data requests inside bytes 0..7 only (signatures '
+        'get_fru_<x>_area:absent-area, :absent-area:reads).  HISTORIES on ONE Ipmi object against ONE device: (a) every single case again as the '
         'SECOND operation after a randomly chosen other one (reads the device refuses at every size, reads of other / '
         'unknown FRU ids, full, header, inventory reads); (b) directed: a refused read whose last size is odd / even, '
         'then ranged and full reads (limits 255, 32, 2); image A read - other FRU read - image B written completely / '
@@ -51,6 +58,12 @@ ASSUMPTIONS = [
     'FRU area *parsers* are substituted by recorders of the bytes handed to them (their correctness is C15); '
     'InventoryCommonHeader is the real one',
     'termination of the real loops is observed (request cap), in the model it is fuel derived from the loop measure',
+    'the requested range of read_fru_data(offset=None, count=None) with ONE argument given is read as: count alone = '
+    'that many bytes from offset 0, offset alone = from there to the end of the inventory area (the only reading under '
+    'which both defaults mean "whole inventory"); what a getter returns for an area the common header declares absent '
+    '(offset byte 00h, Storage Definition 8) is None - the value FruInventory carries for it - after the header read '
+    'alone; the model follows the PROBED variants (Model/FruXfer.Var: rangeFix, absC/absB/absP/absM; as pinned the None '
+    'offset is passed on and the whole inventory is read, fixes/C10-2.diff)',
     'an image with an info area whose length byte is 00h does not follow the storage format and is not judged by the '
     'oracle (about 5 % of the generated images have one); the model follows the PROBED variant of _read_fru_area: as '
     'shipped it reads 0 bytes and hands b\'\' to the parser, after fixes/C15-2.diff it raises DecodingError behind the '
@@ -102,12 +115,21 @@ def _multirecord(rng, nrec):
     return bytes(out)
 
 
-def fru_image(rng, areas):
-    """Common header + the chosen areas ('c','b','p','m') in random order + slack."""
+def fru_image(rng, areas, internal=None):
+    """Common header + the chosen areas ('c','b','p','m') in random order + slack.  The bytes between the header
+    and the first area are DECLARED as internal use area (header byte 1 = 1, first byte format version 01h) when
+    `internal` is true (None: in half of the images that have such bytes) - the usual layout of a board FRU."""
     order = list(areas)
     rng.shuffle(order)
     off = 8 * rng.choice([1, 1, 2, 3])
     body = bytearray(rng.randrange(256) for _ in range(off - 8))
+    if internal is None:
+        internal = off > 8 and rng.random() < 0.5
+    if internal and off == 8:
+        off = 16
+        body = bytearray(rng.randrange(256) for _ in range(8))
+    if internal:
+        body[0] = 0x01
     where = {}
     for a in order:
         data = _multirecord(rng, rng.randrange(1, 5)) if a == 'm' else _info_area(rng, rng.choice([1, 2, 3, 4, 5, 9, 17]))
@@ -119,16 +141,17 @@ def fru_image(rng, areas):
         # an info area whose length byte is 00h (not a well-formed area; exercises the _read_fru_area variant
         # of the model: 0 bytes read and b'' handed on / DecodingError - the oracle does not judge such an image)
         body[where[rng.choice(info)] - 8 + 1] = 0
-    hdr = bytearray([0x01, 0, where.get('c', 0) // 8, where.get('b', 0) // 8, where.get('p', 0) // 8,
-                     where.get('m', 0) // 8, 0])
+    hdr = bytearray([0x01, 1 if internal else 0, where.get('c', 0) // 8, where.get('b', 0) // 8,
+                     where.get('p', 0) // 8, where.get('m', 0) // 8, 0])
     hdr.append((-sum(hdr)) & 0xff)
     slack = bytes(bytearray(rng.randrange(256) for _ in range(rng.choice([0, 0, 1, 7, 30]))))
     return bytes(hdr) + bytes(body) + slack
 
 
 def locate(image):
-    """Independent reading of an image: header offsets, info areas, multirecord extent.
-    Returns None where the image does not follow the storage format."""
+    """Independent reading of an image (Storage Definition 8, 10-12, 16): header offsets, info areas, multirecord
+    extent; an area whose offset byte in the common header is 00h "is not present" (None) whatever else the image
+    holds.  Returns None where the image does not follow the storage format."""
     if len(image) < 8 or sum(image[:8]) % 256:
         return None
     res = {'hdr': [b * 8 or None for b in image[1:6]]}
@@ -210,8 +233,13 @@ def real_op(ipmi, op):
     """Run one operation on the real Ipmi object; returns the canonical outcome string."""
     kind = op[0]
     if kind == 'read':
-        off = None if op[2] == 'n' else int(op[2])
-        return 'ok ' + lean.hexs(ipmi.read_fru_data(offset=off, count=int(op[3]), fru_id=int(op[1])))
+        # 'n' = the argument is left out (its default None): read_fru_data(offset=None, count=None, fru_id=0)
+        kw = {'fru_id': int(op[1])}
+        if op[2] != 'n':
+            kw['offset'] = int(op[2])
+        if op[3] != 'n':
+            kw['count'] = int(op[3])
+        return 'ok ' + lean.hexs(ipmi.read_fru_data(**kw))
     if kind == 'full':
         return 'ok ' + lean.hexs(ipmi.read_fru_data_full(fru_id=int(op[1])))
     if kind == 'write':
@@ -226,9 +254,9 @@ def real_op(ipmi, op):
             h.product_info_area_offset, h.multirecord_area_offset))
     if kind == 'area':
         f = {'c': ipmi.get_fru_chassis_area, 'b': ipmi.get_fru_board_area, 'p': ipmi.get_fru_product_area}[op[2]]
-        return 'ok ' + lean.hexs(f(fru_id=int(op[1])).data)
+        return 'ok ' + _area_hex(f(fru_id=int(op[1])))          # 'n' = the getter returned None
     if kind == 'mr':
-        return 'ok ' + lean.hexs(ipmi.get_fru_multirecord_area(fru_id=int(op[1])).data)
+        return 'ok ' + _area_hex(ipmi.get_fru_multirecord_area(fru_id=int(op[1])))
     if kind == 'inv':
         inv = ipmi.get_fru_inventory(fru_id=int(op[1]))
         return 'ok ' + ' '.join(_area_hex(a) for a in (
@@ -280,6 +308,38 @@ def probe_len_chk(drv):
     except Exception:  # noqa
         return False
     return out == 'DecodingError'
+
+
+# FRU 4 of the probes: common header declaring an internal use area at offset 8 and nothing else
+_BARE = bytes([0x01, 0x01, 0x00, 0x00, 0x00, 0x00, 0x00, 0xfe, 0x01, 0xa1, 0xa2, 0xa3, 0xa4, 0xa5, 0xa6, 0xa7])
+
+
+def probe_range_fix(drv):
+    """Does read_fru_data of the tree under test honour a count given without an offset (fixes/C10-2.diff:
+    `off = offset or 0`, the whole-area size only `if count is None`) or drop it (as pinned: whole inventory
+    whenever `offset is None`)?  (model flag bit 2, Model/FruXfer.readFruDataV)"""
+    dev = {'limit': 32, 'cc': 0xCA, 'short': False, 'wmax': 16, 'frus': [(0, lean.hexs(_BARE)), (4, lean.hexs(_BARE))]}
+    try:
+        out, _, _ = run_real(drv, dev, ['read', '4', 'n', '3'])
+    except Exception:  # noqa
+        return False
+    return out == 'ok ' + lean.hexs(_BARE[:3])
+
+
+def probe_abs_guard(drv, which):
+    """Does the getter (`c`/`b`/`p`/`m`) of the tree under test return None for an area the common header declares
+    absent (fixes/C10-2.diff) or pass the None offset on (as pinned)?  (model flag bits 3..6, Var.absC..absM)"""
+    dev = {'limit': 32, 'cc': 0xCA, 'short': False, 'wmax': 16, 'frus': [(0, lean.hexs(_BARE)), (4, lean.hexs(_BARE))]}
+    try:
+        out, _, _ = run_real(drv, dev, ['mr', '4'] if which == 'm' else ['area', '4', which])
+    except Exception:  # noqa
+        return False
+    return out == 'ok n'
+
+
+GETTER = {'c': 'get_fru_chassis_area', 'b': 'get_fru_board_area', 'p': 'get_fru_product_area',
+          'm': 'get_fru_multirecord_area'}
+HDR_BYTE = {'c': 2, 'b': 3, 'p': 4, 'm': 5}
 
 
 # ---------------------------------------------------------------------------------------
@@ -343,17 +403,33 @@ def judge(ctx, dev, op, out, trace, dump, case=None, faults=()):
     if kind in ('read', 'full'):
         if not _limit_ok(dev):
             return
-        if kind == 'full' or op[2] == 'n':
+        half = False
+        if kind == 'full':
             want = content
         else:
-            off, cnt = int(op[2]), int(op[3])
+            # the requested range of read_fru_data(offset=None, count=None): `count` bytes from `offset` (from the
+            # start when no offset is given), and - no count given - everything from there to the end of the area
+            off = 0 if op[2] == 'n' else int(op[2])
+            cnt = max(len(content) - off, 0) if op[3] == 'n' else int(op[3])
             if off + cnt > len(content):
                 return
             want = content[off:off + cnt]
+            half = (op[2] == 'n') != (op[3] == 'n')
         exp = 'ok ' + lean.hexs(want)
         if hit and not out.startswith('ok '):
             return      # a request of this read was answered with an injected error: it may fail
         if out != exp:
+            if half:
+                ctx.violate('C10:read_fru_data:half-range',
+                            'read_fru_data(%s, fru_id=%d) - a range given by its %s alone - does not return the %d bytes '
+                            'the device stores %s' % (
+                                'count=%s' % op[3] if op[2] == 'n' else 'offset=%s' % op[2], fid,
+                                'count' if op[2] == 'n' else 'offset', len(want),
+                                'from the start of the inventory area' if op[2] == 'n' else 'from that offset to the end '
+                                'of the inventory area'), case,
+                            expected=exp[:200], observed=('%d bytes: ' % ((len(out) - 3) // 2) if out.startswith('ok ') else '')
+                            + out[:200])
+                return
             ctx.violate('C10:%s:data' % ('read_fru_data_full' if kind == 'full' else 'read_fru_data'),
                         'the bytes returned differ from the bytes the device stores in the requested range', case,
                         expected=exp[:200], observed=out[:200])
@@ -411,10 +487,36 @@ def judge(ctx, dev, op, out, trace, dump, case=None, faults=()):
         return
     if not _limit_ok(dev):
         return
+    if hit and not out.startswith('ok '):
+        return
+    which = op[2] if kind == 'area' else 'm' if kind == 'mr' else None
+    if which is not None and len(content) >= 8 and sum(content[:8]) % 256 == 0 and content[HDR_BYTE[which]] == 0:
+        # the common header (valid checksum) says 00h = "this area is not present": the device stores no such area,
+        # whatever its other bytes are.  The getter has nothing to return (None, as FruInventory reports an absent
+        # area) and nothing to read beyond the 8 header bytes (Props/C10.absent_area_is_none).
+        name = GETTER[which]
+        reads = [(t[1][1] | t[1][2] << 8, t[1][3]) for t in trace if t[0] == 0x11 and len(t[1]) == 4]
+        beyond = [t for t in trace if t[0] != 0x11 or len(t[1]) != 4 or (t[1][1] | t[1][2] << 8) + t[1][3] > 8]
+        if out != 'ok n':
+            got = out if not out.startswith('ok ') else \
+                'an area object built from %d bytes: %s' % ((len(out) - 3) // 2, out[3:120])
+            ctx.violate('C10:%s:absent-area' % name,
+                        '%s(fru_id=%d): the common header of FRU %d declares no such area (offset byte %d is 00h); the '
+                        'getter %s after %d requests for %d bytes (Get FRU Inventory Area Info: %d) - the inventory '
+                        'holds %d bytes, its header 8' % (
+                            name, fid, fid, HDR_BYTE[which],
+                            'handed its parser bytes the device does not store as that area' if out.startswith('ok ')
+                            else 'ended in %s' % out[:60], len(trace), sum(c for _, c in reads),
+                            sum(1 for t in trace if t[0] == 0x10), len(content)), case,
+                        expected='ok n (None: no area) after reading the 8 header bytes only', observed=got[:300])
+        elif beyond:
+            ctx.violate('C10:%s:absent-area:reads' % name,
+                        '%s(fru_id=%d) returns None for the absent area but transferred more than the common header'
+                        % (name, fid), case, expected='Read FRU Data requests inside bytes 0..7 only',
+                        observed=dev10.show_trace(trace)[:300])
+        return
     loc = locate(content)
     if loc is None:
-        return
-    if hit and not out.startswith('ok '):
         return
     if kind == 'hdr':
         exp = 'ok ' + ','.join(_opt(x) for x in loc['hdr'])
@@ -609,9 +711,13 @@ def _prior_op(rng, dev):
     r = rng.random()
     if r < 0.45:
         return _bad_read(rng, fid, n)
-    if r < 0.6:
+    if r < 0.55:
         off, cnt = _range(rng, n)
         return ['read', str(fid), str(off), str(cnt)]
+    if r < 0.6:
+        # a half-specified range: a count alone / an offset alone
+        return ['read', str(fid), 'n', str(rng.randrange(0, min(n, 40) + 1))] if rng.random() < 0.5 else \
+            ['read', str(fid), str(max(0, n - rng.randrange(0, 40))), 'n']
     if r < 0.7 and n <= 300:
         return ['full', str(fid)]
     if r < 0.8:
@@ -754,9 +860,12 @@ def gen_history(rng, wl=16):
         fid = _pick_id(rng, dev)
         n = len(view[fid])
         r = rng.random()
-        if r < 0.2:
+        if r < 0.17:
             off, cnt = _range(rng, n)
             steps.append({'op': ['read', str(fid), str(off), str(cnt)]})
+        elif r < 0.2:
+            steps.append({'op': ['read', str(fid), 'n', str(rng.randrange(0, min(n, 40) + 1))] if rng.random() < 0.5 else
+                          ['read', str(fid), str(max(0, n - rng.randrange(0, 40))), 'n']})
         elif r < 0.28:
             steps.append({'op': ['full', str(fid)]})
         elif r < 0.45:
@@ -945,12 +1054,21 @@ def run(ctx):
     rng = ctx.rng('c10')
     mr_shipped = probe_shipped(drv)
     len_chk = probe_len_chk(drv)
-    # model flags of `run`: bit 0 = get_fru_multirecord_area as shipped, bit 1 = _read_fru_area rejects area length 0
-    shipped = (1 if mr_shipped else 0) | (2 if len_chk else 0)
+    range_fix = probe_range_fix(drv)
+    guards = dict((k, probe_abs_guard(drv, k)) for k in 'cbpm')
+    # model flags of `run`: bit 0 = get_fru_multirecord_area as shipped, bit 1 = _read_fru_area rejects area length 0,
+    # bit 2 = read_fru_data honours a count / an offset given alone, bits 3..6 = the chassis / board / product /
+    # multirecord getter returns None for an area the header declares absent
+    shipped = (1 if mr_shipped else 0) | (2 if len_chk else 0) | (4 if range_fix else 0) | \
+        sum(8 << i for i, k in enumerate('cbpm') if guards[k])
     ctx.extra['model_variant'] = ('get_fru_multirecord_area as shipped (inner reads use FRU 0)' if mr_shipped
                                   else 'get_fru_multirecord_area intended') + \
         ('; _read_fru_area rejects an area length byte 0 (fixes/C15-2.diff)' if len_chk
-         else '; _read_fru_area as shipped (area length byte 0: reads nothing, parser gets b\'\')')
+         else '; _read_fru_area as shipped (area length byte 0: reads nothing, parser gets b\'\')') + \
+        ('; read_fru_data honours a count / an offset given alone (fixes/C10-2.diff)' if range_fix
+         else '; read_fru_data as pinned (whole inventory whenever offset is None, offset alone: TypeError)') + \
+        '; getters returning None for an absent area: %s' % (
+            ', '.join(GETTER[k] for k in 'cbpm' if guards[k]) or 'none (as pinned: the None offset is passed on)')
     quick = ctx.tier == 'quick'
     default_wl = (_consts or {}).get('fru', {}).get('writeLen', 16) or 16
     nsample = 0
@@ -986,6 +1104,11 @@ def run(ctx):
         ctx.count('ack-plan-first-deviation:%s' % ('shorter' if min(mp[0])[2] < lens[min(mp[0])[0]] else 'longer'))
         ctx.count('ack-plan-outcome:' + res[0][1].split(' ')[0].split(':')[0])
 
+    # 0. directed, first (smallest replays): a count alone / an offset alone on a 16-byte inventory
+    arng = ctx.rng('c10-absent')
+    bare = {'limit': 32, 'cc': 0xCA, 'short': False, 'wmax': 16, 'frus': [(0, lean.hexs(_blob(arng, 16))), (3, lean.hexs(_BARE))]}
+    go(bare, ['read', '3', 'n', '8'], 'half-range')
+    go(bare, ['read', '3', '8', 'n'], 'half-range')
     # 1. directed: every limit 2..40 and a few above, each rejection code, clamped tails 1..5
     lims = list(range(2, 41)) + [63, 64, 65, 127, 128, 254, 255]
     if not quick:
@@ -1007,6 +1130,26 @@ def run(ctx):
         else:
             off, cnt = _range(rng, n)
             go(dev, ['read', str(fid), str(off), str(cnt)], 'range')
+    # 2b. HALF-SPECIFIED RANGES of read_fru_data(offset=None, count=None, fru_id=0): a count given alone (that many
+    #     bytes from the start), an offset given alone (from there to the end of the inventory area); boundary sizes,
+    #     count 0, the whole area, and a few that leave the area (compared with the model only)
+    for _ in range(110 if quick else 1500):
+        dev = gen_device(arng)
+        fid = _pick_id(arng, dev)
+        n = len(_store(dev)[fid])
+        r = arng.random()
+        if r < 0.45:
+            cnt = min(arng.choice([0, 1, 2, 5, 8, 31, 32, 33, 64, n, n - 1 if n else 0, arng.randrange(0, n + 1)]), n)
+            op = ['read', str(fid), 'n', str(cnt)]
+        elif r < 0.9:
+            off = min(arng.choice([0, 0, 1, 7, 8, 32, n, n - 1 if n else 0, arng.randrange(0, n + 1)]), n)
+            op = ['read', str(fid), str(off), 'n']
+        elif r < 0.95:
+            op = ['read', str(fid), 'n', str(n + arng.randrange(1, 40))]
+        else:
+            op = ['read', str(fid), str(n + arng.randrange(1, 40)), 'n']
+        go(dev, op, 'half-range')
+        ctx.count('half-range:%s' % ('count-only' if op[2] == 'n' else 'offset-only'))
     # 3. large areas (boundary of the 16-bit offset)
     for big in ([4096, 65535] if quick else [4096, 32768, 65534, 65535, 65535]):
         dev = gen_device(rng, sizes=[0, 9, 300], big=big)
@@ -1075,6 +1218,28 @@ def run(ctx):
                 'frus': [(0, lean.hexs(zimg if fid == 0 else _blob(rng, 24))), (6, lean.hexs(zimg))][:1 if fid == 0 else 2]}
         for op in (['area', str(fid), 'c'], ['area', str(fid), 'b'], ['inv', str(fid)]):
             go(zdev, op, 'zero-length-area')
+    # 5b. ABSENT AREAS, directed: every subset of {chassis, board, product, multirecord} present x internal use area
+    #     declared or not x every getter (and header, whole inventory) - on an image whose common header says 00h for
+    #     an area the getter has nothing to return and nothing to read beyond the header
+    for rep in range(1 if quick else 8):
+        for mask in range(16):
+            areas = ''.join(a for i, a in enumerate('cbpm') if mask >> i & 1)
+            for internal in (False, True):
+                img = fru_image(arng, areas, internal=internal)
+                fid = arng.choice([0, 1, 3, 77, 255])
+                frus = [(fid, lean.hexs(img))]
+                if fid != 0:
+                    frus.insert(0, (0, lean.hexs(fru_image(arng, arng.choice(['cbpm', 'b', 'cm', ''])))))
+                adev = {'limit': arng.choice([2, 3, 5, 8, 16, 32, 255]), 'cc': arng.choice(REJECT), 'short': False,
+                        'wmax': 16, 'frus': frus}
+                for op in (['area', str(fid), 'c'], ['area', str(fid), 'b'], ['area', str(fid), 'p'], ['mr', str(fid)],
+                           ['inv', str(fid)], ['hdr', str(fid)]):
+                    go(adev, op, 'absent-area-sweep')
+                    which = op[2] if op[0] == 'area' else 'm' if op[0] == 'mr' else None
+                    if which:
+                        ctx.count('getter-on:%s' % ('present-area' if which in areas else 'absent-area'))
+                ctx.count('areas-present:%d' % len(areas))
+                ctx.count('internal-use-area:%s' % ('declared' if internal else 'none'))
     # 5. inventory images: header, each area, multirecord, whole inventory
     for _ in range(150 if quick else 1500):
         dev = gen_device(rng, images=True)
